@@ -85,6 +85,51 @@ func (ex *Executor) call(st *State, fr *Frame, x *ssa.Call) bool {
 	if fn.Blocks == nil && fn.Name() == "init" {
 		return false // init of a package without bodies
 	}
+	if name == "(*sync.Pool).Get" || name == "(*sync.Pool).Put" {
+		p := args[0].(Ptr)
+		if p.isNil() || p.idx != nil {
+			unsupported("sync.Pool through a nil or symbolic pointer")
+		}
+		key := [2]int{p.obj, p.base}
+		if name == "(*sync.Pool).Put" {
+			np := make(map[[2]int][]Value, len(st.pools)+1)
+			for k, v := range st.pools {
+				np[k] = v
+			}
+			np[key] = append(append([]Value(nil), np[key]...), args[1])
+			st.pools = np
+			ex.setReg(fr, x, nil)
+			return false
+		}
+		// Get: the model hands back the most recently Put item (what a single goroutine usually sees);
+		// an empty pool calls New
+		if items := st.pools[key]; len(items) > 0 {
+			np := make(map[[2]int][]Value, len(st.pools))
+			for k, v := range st.pools {
+				np[k] = v
+			}
+			np[key] = items[:len(items)-1]
+			st.pools = np
+			ex.setReg(fr, x, items[len(items)-1])
+			return false
+		}
+		pt := cc.Args[0].Type().Underlying().(*types.Pointer).Elem()
+		ps, ok := pt.Underlying().(*types.Struct)
+		if !ok {
+			unsupported("sync.Pool layout")
+		}
+		fi := fieldIndex(ps, "New")
+		np := p
+		np.base += ex.lay.of(pt).fields[fi]
+		nf, _ := ex.load(st, np, ps.Field(fi).Type()).(FuncV)
+		if nf.fn == nil {
+			ex.setReg(fr, x, IfaceV{})
+			return false
+		}
+		fr.ip++
+		ex.pushFrame(st, nf.fn, nil, nf.bindings, retReg)
+		return true
+	}
 	if strings.HasPrefix(name, "encoding/json.") {
 		// types with their own (Un)MarshalJSON are dispatched to it, as encoding/json does
 		if m, margs := ex.jsonDispatch(name, args); m != nil {
@@ -103,6 +148,38 @@ func (ex *Executor) call(st *State, fr *Frame, x *ssa.Call) bool {
 	}
 	fr.ip++ // resume after the call
 	ex.pushFrame(st, fn, args, bindings, retReg)
+	return true
+}
+
+// callDeferred runs one deferred call; true if a frame was pushed. The ip of the
+// frame stays on the RunDefers instruction, which is re-executed afterwards.
+func (ex *Executor) callDeferred(st *State, fr *Frame, d *ssa.Defer, vals []Value) bool {
+	fv, ok := vals[0].(FuncV)
+	if !ok || fv.fn == nil {
+		ex.require(st, ex.tt.False, "deferred call of a nil func")
+	}
+	fn := fv.fn
+	args := vals[1:]
+	name := fn.String()
+	if name == "(*sync.Pool).Put" {
+		p := args[0].(Ptr)
+		key := [2]int{p.obj, p.base}
+		np := make(map[[2]int][]Value, len(st.pools)+1)
+		for k, v := range st.pools {
+			np[k] = v
+		}
+		np[key] = append(append([]Value(nil), np[key]...), args[1])
+		st.pools = np
+		return false
+	}
+	if fn.Blocks == nil || ex.isIntrinsic(name) {
+		_, handled := ex.intrinsic(st, fr, name, fn, args, d.Common())
+		if !handled {
+			unsupported("deferred call of external function %s", name)
+		}
+		return false
+	}
+	ex.pushFrame(st, fn, args, fv.bindings, -1)
 	return true
 }
 
